@@ -190,7 +190,7 @@ def stage_corr(seed, tier, hbin, extra_cases=None, tag=""):
     base = os.path.join(CACHE, "corr")
     if os.path.isdir(base):
         olds = sorted((os.path.getmtime(os.path.join(base, x)), x) for x in os.listdir(base))
-        for _, x in olds[:-3]:
+        for _, x in olds[:-10]:
             shutil.rmtree(os.path.join(base, x), ignore_errors=True)
     os.makedirs(d, exist_ok=True)
     t0 = time.time()
@@ -523,7 +523,7 @@ def decide_from_corr(prop, tier, seed):
             # something broke but no judged failure on this case file: search more seeds
             found = None
             if violations:
-                for s2 in range(seed + 1, seed + (4 if tier == "quick" else 9)):
+                for s2 in range(seed + 1, seed + (1 if tier == "quick" else 4)):
                     with Lock():
                         d2 = stage_corr(s2, tier, har["bin"])
                     vs2 = [v for v in load_verdicts(d2) if prop in v["jfail"] and not finding_matches(prop, v, case_lines(d2)[v["id"]])]
